@@ -1,0 +1,386 @@
+// Copyright 2025 The Go Authors. All rights reserved.
+// Use of this source code is governed by a BSD-style
+// license that can be found in the LICENSE file.
+
+//go:build verif
+
+package webdav
+
+import "path"
+
+// Contracts, spec functions and lemma harnesses for the deductive verifier in /verif (govc).
+// This file is compiled only with -tags verif; it adds no behaviour to the package.
+
+// ---------------------------------------------------------------------------
+// C45: Dir keeps every request path inside its root.
+//
+// Vocabulary. A string q is a "clean rooted path" when it starts with '/' and, at every slash q[i]:
+// the slash is the last byte only if q is "/", it is not followed by another slash (no empty
+// element), and the element after it is neither "." nor "..". Written out (CLEAN(q)):
+//
+//	forall i :: 0 <= i < len(q) && q[i] == '/' ==>
+//	    (i+1 >= len(q) ==> len(q) == 1) && (i+1 < len(q) ==> q[i+1] != '/') &&
+//	    (i+1 < len(q) && q[i+1] == '.' ==> i+2 < len(q) && q[i+2] != '/') &&
+//	    (i+2 < len(q) && q[i+1] == '.' && q[i+2] == '.' ==> i+3 < len(q) && q[i+3] != '/')
+//
+// The formula is repeated literally in every clause (the spec language has no macros, and the
+// literal repetition lets the solver identify the occurrences). A native path r is lexically inside
+// the root directory d (d itself a clean rooted path other than "/") when r == d, or r == d + q for
+// a clean rooted path q other than "/" - i.e. d followed by further elements none of which is "..".
+
+//@ func slashClean(name) (r)
+//@   ensures len(r) >= 1 && r[0] == '/'
+//@   ensures (forall i int :: 0 <= i && i < len(r) && r[i] == '/' ==> (i+1 >= len(r) ==> len(r) == 1) && (i+1 < len(r) ==> r[i+1] != '/') && (i+1 < len(r) && r[i+1] == '.' ==> i+2 < len(r) && r[i+2] != '/') && (i+2 < len(r) && r[i+1] == '.' && r[i+2] == '.' ==> i+3 < len(r) && r[i+3] != '/'))
+
+// cleanAt(q, i) is the body of CLEAN(q) at position i, as a spec function (used where a clause is a
+// proof goal; the literal formula is used where a clause has to match a trusted contract).
+//
+//@ pure
+func cleanAt(q string, i int) bool {
+	if i < 0 || i >= len(q) || q[i] != '/' {
+		return true
+	}
+	if i+1 >= len(q) {
+		return len(q) == 1
+	}
+	if q[i+1] == '/' {
+		return false
+	}
+	if q[i+1] != '.' {
+		return true
+	}
+	if i+2 >= len(q) || q[i+2] == '/' {
+		return false
+	}
+	if q[i+2] != '.' {
+		return true
+	}
+	if i+3 >= len(q) || q[i+3] == '/' {
+		return false
+	}
+	return true
+}
+
+// resolve, for a Dir that is a clean rooted path other than "/" (the precondition; see lemmaResolveNUL
+// for the clause that holds for every Dir): a name is rejected exactly when it has a NUL byte; what is
+// handed to filepath.Join is the root and a clean rooted path - no "..", "." or empty element
+// survives slashClean; the result is lexically inside d: d itself, or d followed by "/" and further
+// elements none of which is "..".
+//
+//@ func (Dir).resolve(d, name) (r)
+//@   requires len(d) > 1 && d[0] == '/' && (forall i int :: 0 <= i && i < len(d) && d[i] == '/' ==> (i+1 >= len(d) ==> len(d) == 1) && (i+1 < len(d) ==> d[i+1] != '/') && (i+1 < len(d) && d[i+1] == '.' ==> i+2 < len(d) && d[i+2] != '/') && (i+2 < len(d) && d[i+1] == '.' && d[i+2] == '.' ==> i+3 < len(d) && d[i+3] != '/'))
+//@   assert at call Join: len($elem) == 2 && $elem[0] == string(d)
+//@   ensures forall i int :: 0 <= i && i < len(name) && name[i] == 0 ==> r == ""
+//@   ensures r == "" ==> (exists i int :: 0 <= i && i < len(name) && name[i] == 0)
+//@   ensures r != "" ==> len(r) >= len(d)
+//@   ensures forall i int :: r != "" && 0 <= i && i < len(d) ==> r[i] == d[i]
+//@   ensures r != "" ==> len(r) == len(d) || (len(r) > len(d)+1 && r[len(d)] == '/')
+//@   ensures r != "" ==> (forall i int :: 0 <= i && i < len(r) && r[i] == '/' ==> (i+1 >= len(r) ==> len(r) == 1) && (i+1 < len(r) ==> r[i+1] != '/') && (i+1 < len(r) && r[i+1] == '.' ==> i+2 < len(r) && r[i+2] != '/') && (i+2 < len(r) && r[i+1] == '.' && r[i+2] == '.' ==> i+3 < len(r) && r[i+3] != '/'))
+
+// The five FileSystem methods of Dir, for a Dir that is a clean rooted path other than "/".
+// Call-site conditions: every path handed to the os package is lexically inside d (d itself, or d
+// followed by "/" and further elements, the whole in clean form, so without any ".." element);
+// os.RemoveAll and os.Rename only ever get paths strictly inside d, never d itself. A name with a
+// NUL byte makes every method return os.ErrNotExist without any call into the os package (ghost
+// counter oscalls); when no os function was called the error is ErrNotExist or ErrInvalid.
+//
+//@ func (Dir).Mkdir(d, ctx, name, perm) (err)
+//@   requires len(d) > 1 && d[0] == '/' && (forall i int :: 0 <= i && i < len(d) && d[i] == '/' ==> (i+1 >= len(d) ==> len(d) == 1) && (i+1 < len(d) ==> d[i+1] != '/') && (i+1 < len(d) && d[i+1] == '.' ==> i+2 < len(d) && d[i+2] != '/') && (i+2 < len(d) && d[i+1] == '.' && d[i+2] == '.' ==> i+3 < len(d) && d[i+3] != '/'))
+//@   ghost oscalls += 1 at call os.Mkdir
+//@   assert at call os.Mkdir: len($name) == len(d) || (len($name) > len(d)+1 && $name[len(d)] == '/')
+//@   assert at call os.Mkdir: forall i int :: 0 <= i && i < len(d) ==> $name[i] == d[i]
+//@   assert at call os.Mkdir: forall i int :: 0 <= i && i < len($name) && $name[i] == '/' ==> (i+1 >= len($name) ==> len($name) == 1) && (i+1 < len($name) ==> $name[i+1] != '/') && (i+1 < len($name) && $name[i+1] == '.' ==> i+2 < len($name) && $name[i+2] != '/') && (i+2 < len($name) && $name[i+1] == '.' && $name[i+2] == '.' ==> i+3 < len($name) && $name[i+3] != '/')
+//@   ensures forall i int :: 0 <= i && i < len(name) && name[i] == 0 ==> err == os.ErrNotExist && ghost(oscalls) == 0
+//@   ensures ghost(oscalls) == 0 ==> err == os.ErrNotExist
+//@
+//@ func (Dir).OpenFile(d, ctx, name, flag, perm) (f, err)
+//@   requires len(d) > 1 && d[0] == '/' && (forall i int :: 0 <= i && i < len(d) && d[i] == '/' ==> (i+1 >= len(d) ==> len(d) == 1) && (i+1 < len(d) ==> d[i+1] != '/') && (i+1 < len(d) && d[i+1] == '.' ==> i+2 < len(d) && d[i+2] != '/') && (i+2 < len(d) && d[i+1] == '.' && d[i+2] == '.' ==> i+3 < len(d) && d[i+3] != '/'))
+//@   ghost oscalls += 1 at call os.OpenFile
+//@   assert at call os.OpenFile: len($name) == len(d) || (len($name) > len(d)+1 && $name[len(d)] == '/')
+//@   assert at call os.OpenFile: forall i int :: 0 <= i && i < len(d) ==> $name[i] == d[i]
+//@   assert at call os.OpenFile: forall i int :: 0 <= i && i < len($name) && $name[i] == '/' ==> (i+1 >= len($name) ==> len($name) == 1) && (i+1 < len($name) ==> $name[i+1] != '/') && (i+1 < len($name) && $name[i+1] == '.' ==> i+2 < len($name) && $name[i+2] != '/') && (i+2 < len($name) && $name[i+1] == '.' && $name[i+2] == '.' ==> i+3 < len($name) && $name[i+3] != '/')
+//@   ensures forall i int :: 0 <= i && i < len(name) && name[i] == 0 ==> err == os.ErrNotExist && f == nil && ghost(oscalls) == 0
+//@   ensures ghost(oscalls) == 0 ==> err == os.ErrNotExist
+//@   allocates
+//@
+//@ func (Dir).Stat(d, ctx, name) (fi, err)
+//@   requires len(d) > 1 && d[0] == '/' && (forall i int :: 0 <= i && i < len(d) && d[i] == '/' ==> (i+1 >= len(d) ==> len(d) == 1) && (i+1 < len(d) ==> d[i+1] != '/') && (i+1 < len(d) && d[i+1] == '.' ==> i+2 < len(d) && d[i+2] != '/') && (i+2 < len(d) && d[i+1] == '.' && d[i+2] == '.' ==> i+3 < len(d) && d[i+3] != '/'))
+//@   ghost oscalls += 1 at call os.Stat
+//@   assert at call os.Stat: len($name) == len(d) || (len($name) > len(d)+1 && $name[len(d)] == '/')
+//@   assert at call os.Stat: forall i int :: 0 <= i && i < len(d) ==> $name[i] == d[i]
+//@   assert at call os.Stat: forall i int :: 0 <= i && i < len($name) && $name[i] == '/' ==> (i+1 >= len($name) ==> len($name) == 1) && (i+1 < len($name) ==> $name[i+1] != '/') && (i+1 < len($name) && $name[i+1] == '.' ==> i+2 < len($name) && $name[i+2] != '/') && (i+2 < len($name) && $name[i+1] == '.' && $name[i+2] == '.' ==> i+3 < len($name) && $name[i+3] != '/')
+//@   ensures forall i int :: 0 <= i && i < len(name) && name[i] == 0 ==> err == os.ErrNotExist && fi == nil && ghost(oscalls) == 0
+//@   ensures ghost(oscalls) == 0 ==> err == os.ErrNotExist
+//@   allocates
+//@
+//@ func (Dir).RemoveAll(d, ctx, name) (err)
+//@   requires len(d) > 1 && d[0] == '/' && (forall i int :: 0 <= i && i < len(d) && d[i] == '/' ==> (i+1 >= len(d) ==> len(d) == 1) && (i+1 < len(d) ==> d[i+1] != '/') && (i+1 < len(d) && d[i+1] == '.' ==> i+2 < len(d) && d[i+2] != '/') && (i+2 < len(d) && d[i+1] == '.' && d[i+2] == '.' ==> i+3 < len(d) && d[i+3] != '/'))
+//@   ghost oscalls += 1 at call os.RemoveAll
+//@   assert at call os.RemoveAll: len($path) > len(d)+1 && $path[len(d)] == '/'
+//@   assert at call os.RemoveAll: forall i int :: 0 <= i && i < len(d) ==> $path[i] == d[i]
+//@   assert at call os.RemoveAll: forall i int :: 0 <= i && i < len($path) && $path[i] == '/' ==> (i+1 >= len($path) ==> len($path) == 1) && (i+1 < len($path) ==> $path[i+1] != '/') && (i+1 < len($path) && $path[i+1] == '.' ==> i+2 < len($path) && $path[i+2] != '/') && (i+2 < len($path) && $path[i+1] == '.' && $path[i+2] == '.' ==> i+3 < len($path) && $path[i+3] != '/')
+//@   ensures forall i int :: 0 <= i && i < len(name) && name[i] == 0 ==> err == os.ErrNotExist && ghost(oscalls) == 0
+//@   ensures ghost(oscalls) == 0 ==> err == os.ErrNotExist || err == os.ErrInvalid
+//@
+//@ func (Dir).Rename(d, ctx, oldName, newName) (err)
+//@   requires len(d) > 1 && d[0] == '/' && (forall i int :: 0 <= i && i < len(d) && d[i] == '/' ==> (i+1 >= len(d) ==> len(d) == 1) && (i+1 < len(d) ==> d[i+1] != '/') && (i+1 < len(d) && d[i+1] == '.' ==> i+2 < len(d) && d[i+2] != '/') && (i+2 < len(d) && d[i+1] == '.' && d[i+2] == '.' ==> i+3 < len(d) && d[i+3] != '/'))
+//@   ghost oscalls += 1 at call os.Rename
+//@   assert at call os.Rename: len($oldpath) > len(d)+1 && $oldpath[len(d)] == '/'
+//@   assert at call os.Rename: forall i int :: 0 <= i && i < len(d) ==> $oldpath[i] == d[i]
+//@   assert at call os.Rename: forall i int :: 0 <= i && i < len($oldpath) && $oldpath[i] == '/' ==> (i+1 >= len($oldpath) ==> len($oldpath) == 1) && (i+1 < len($oldpath) ==> $oldpath[i+1] != '/') && (i+1 < len($oldpath) && $oldpath[i+1] == '.' ==> i+2 < len($oldpath) && $oldpath[i+2] != '/') && (i+2 < len($oldpath) && $oldpath[i+1] == '.' && $oldpath[i+2] == '.' ==> i+3 < len($oldpath) && $oldpath[i+3] != '/')
+//@   assert at call os.Rename: len($newpath) > len(d)+1 && $newpath[len(d)] == '/'
+//@   assert at call os.Rename: forall i int :: 0 <= i && i < len(d) ==> $newpath[i] == d[i]
+//@   assert at call os.Rename: forall i int :: 0 <= i && i < len($newpath) && $newpath[i] == '/' ==> (i+1 >= len($newpath) ==> len($newpath) == 1) && (i+1 < len($newpath) ==> $newpath[i+1] != '/') && (i+1 < len($newpath) && $newpath[i+1] == '.' ==> i+2 < len($newpath) && $newpath[i+2] != '/') && (i+2 < len($newpath) && $newpath[i+1] == '.' && $newpath[i+2] == '.' ==> i+3 < len($newpath) && $newpath[i+3] != '/')
+//@   ensures forall i int :: 0 <= i && i < len(oldName) && oldName[i] == 0 ==> err == os.ErrNotExist && ghost(oscalls) == 0
+//@   ensures forall i int :: 0 <= i && i < len(newName) && newName[i] == 0 ==> err == os.ErrNotExist && ghost(oscalls) == 0
+//@   ensures ghost(oscalls) == 0 ==> err == os.ErrNotExist || err == os.ErrInvalid
+
+// lemmaResolveNUL: for EVERY Dir value (no precondition on d) a name with a NUL byte resolves to ""
+// (which every Dir method turns into os.ErrNotExist before any os call, see above). The body of
+// resolve is executed (usebody), not its contract.
+//
+//@ lemma
+//@ usebody resolve
+//@ ensures ok
+func lemmaResolveNUL(d Dir, name string, k int) (ok bool) {
+	if k < 0 || k >= len(name) || name[k] != 0 {
+		return true
+	}
+	return d.resolve(name) == ""
+}
+
+// ---------------------------------------------------------------------------
+// C44 (partial): memFile position arithmetic and byte-level Read/Write semantics.
+//
+// Representation invariant of a memFile: pos >= 0 (Seek refuses negative positions, Read and Write
+// only add to it). It is a precondition of the three methods and re-established by each.
+
+// Seek: the new position is the mathematical sum base + offset (base 0, pos or len(data)); the call
+// fails with os.ErrInvalid, leaving pos alone, exactly when that sum is negative or exceeds the int
+// range (or whence is unknown); it never panics.
+//
+//@ func (*memFile).Seek(f, offset, whence) (pos, err)
+//@   requires f != nil && f.n != nil && f.pos >= 0
+//@   ensures  err == nil ==> pos == int64(f.pos) && f.pos >= 0
+//@   ensures  err != nil ==> err == os.ErrInvalid && pos == 0 && f.pos == old(f.pos)
+//@   ensures  whence == io.SeekStart ==> (err == nil <==> offset >= 0)
+//@   ensures  whence == io.SeekStart && err == nil ==> f.pos == int(offset)
+//@   ensures  whence == io.SeekCurrent ==> (err == nil <==> -int64(old(f.pos)) <= offset && offset <= 0x7fffffffffffffff - int64(old(f.pos)))
+//@   ensures  whence == io.SeekCurrent && err == nil ==> f.pos == old(f.pos) + int(offset)
+//@   ensures  whence == io.SeekEnd ==> (err == nil <==> -int64(len(f.n.data)) <= offset && offset <= 0x7fffffffffffffff - int64(len(f.n.data)))
+//@   ensures  whence == io.SeekEnd && err == nil ==> f.pos == len(f.n.data) + int(offset)
+//@   ensures  whence != io.SeekStart && whence != io.SeekCurrent && whence != io.SeekEnd ==> err != nil
+//@   modifies f.pos
+
+// Read: a directory cannot be read; at or past the end io.EOF and nothing moves; otherwise exactly
+// min(len(p), len(data)-pos) bytes data[pos:...] arrive in p and pos advances by that count.
+//
+//@ func (*memFile).Read(f, p) (n, err)
+//@   requires f != nil && f.n != nil && f.pos >= 0
+//@   ensures  f.pos >= 0
+//@   ensures  f.n.mode.IsDir() ==> n == 0 && err == os.ErrInvalid && f.pos == old(f.pos)
+//@   ensures  !f.n.mode.IsDir() && old(f.pos) >= len(f.n.data) ==> n == 0 && err == io.EOF && f.pos == old(f.pos)
+//@   ensures  !f.n.mode.IsDir() && old(f.pos) < len(f.n.data) ==> n == min(len(p), len(f.n.data) - old(f.pos)) && err == nil && f.pos == old(f.pos) + n
+//@   ensures  forall k int :: 0 <= k && k < n ==> p[k] == old(f.n.data[f.pos+k])
+//@   modifies f.pos, elems(p)
+
+// Write (not in the green set: the no-panic sweep fails, candidate defect F8): a directory cannot be
+// written; otherwise all of p is written at pos: the file grows to max(len, pos+len(p)), the bytes at
+// [pos, pos+len(p)) are p, bytes before pos are kept, a hole between the old end and pos reads as zero,
+// bytes after the written range are kept.
+//
+//@ func (*memFile).Write(f, p) (n, err)
+//@   requires f != nil && f.n != nil && f.pos >= 0
+//@   ensures  f.pos >= 0
+//@   ensures  f.n.mode.IsDir() ==> n == 0 && err == os.ErrInvalid && f.pos == old(f.pos) && len(f.n.data) == old(len(f.n.data))
+//@   ensures  !f.n.mode.IsDir() ==> n == len(p) && err == nil && f.pos == old(f.pos) + len(p)
+//@   ensures  !f.n.mode.IsDir() ==> len(f.n.data) == max(old(len(f.n.data)), old(f.pos) + len(p))
+//@   ensures  forall k int :: !f.n.mode.IsDir() && 0 <= k && k < len(p) ==> f.n.data[old(f.pos)+k] == old(p[k])
+//@   ensures  forall k int :: !f.n.mode.IsDir() && 0 <= k && k < old(f.pos) && k < old(len(f.n.data)) ==> f.n.data[k] == old(f.n.data[k])
+//@   ensures  forall k int :: !f.n.mode.IsDir() && old(len(f.n.data)) <= k && k < old(f.pos) ==> f.n.data[k] == 0
+//@   ensures  forall k int :: !f.n.mode.IsDir() && old(f.pos) + len(p) <= k && k < old(len(f.n.data)) ==> f.n.data[k] == old(f.n.data[k])
+//@   cases f.pos < len(f.n.data) else f.pos == len(f.n.data) else f.pos <= cap(f.n.data)
+//@   loop 1 invariant -1 <= rangeindex && rangeindex < len(hole)
+//@   loop 1 invariant forall k int :: 0 <= k && k <= rangeindex ==> hole[k] == 0
+//@   loop 1 invariant forall k int :: 0 <= k && k < oldLen ==> f.n.data[k] == old(f.n.data[k])
+//@   loop 1 modifies elems(hole)
+//@   modifies f.pos, f.n.data, f.n.modTime, elems(f.n.data), spare(f.n.data)
+//@   allocates
+
+// ---------------------------------------------------------------------------
+// C46: COPY and MOVE never destroy their source.
+//
+// copyFiles and moveFiles start by removing the destination tree when Overwrite is set. That cannot
+// touch the source only if the destination does not denote the source or one of its ancestors -
+// after the normalisation every FileSystem applies to names (slashClean). This is their precondition;
+// it is an obligation at the two call sites in Handler.handleCopyMove, where the code only knows
+// that the raw strings differ (candidate defect F2: the obligation fails, see lemmaF2GuardInsufficient
+// for a machine-checked witness).
+
+// specSlashClean is slashClean as a spec function (same body).
+//
+//@ pure
+func specSlashClean(name string) string {
+	if name == "" || name[0] != '/' {
+		name = "/" + name
+	}
+	return path.Clean(name)
+}
+
+// coversPath(anc, p): removing the tree at anc removes p - anc is p itself, the root, or an ancestor
+// directory of p (both in clean rooted form).
+//
+//@ pure
+func coversPath(anc, p string) bool {
+	return anc == p || anc == "/" || (len(p) > len(anc) && p[:len(anc)] == anc && p[len(anc)] == '/')
+}
+
+// lemmaF2GuardInsufficient: the guard of handleCopyMove (dst != "" && dst != src on the raw strings)
+// lets through a destination that denotes the source: "/a/" against "/a" (trusted facts used:
+// path.Clean returns a clean rooted path unchanged, and drops one trailing slash of such a path).
+//
+//@ lemma
+//@ usebody slashClean
+//@ ensures ok
+func lemmaF2GuardInsufficient() (ok bool) {
+	src, dst := "/a", "/a/"
+	guardPasses := dst != "" && dst != src
+	return guardPasses && slashClean(dst) == slashClean(src)
+}
+
+// The FileSystem methods are called through the interface; the verifier dispatches over the two
+// implementations of the package (Dir, *memFS - closed world, listed as an assumption) so that the
+// call-site conditions below apply to every call. File methods are abstract (any implementation).
+//
+//@ func (File).Close(f) (err)
+//@ func (File).Stat(f) (fi, err)
+//@   ensures err == nil ==> fi != nil
+//@ func (File).Readdir(f, count) (fis, err)
+//@   ensures forall i int :: 0 <= i && i < len(fis) ==> fis[i] != nil
+//@ func (*memFS).Mkdir(fs, ctx, name, perm) (err)
+//@   trusted
+//@ func (*memFS).OpenFile(fs, ctx, name, flag, perm) (f, err)
+//@   trusted
+//@   allocates
+//@ func (*memFS).Stat(fs, ctx, name) (fi, err)
+//@   trusted
+//@   allocates
+//@ func copyProps(dst, src) (err)
+//@   opaque
+
+// copyFiles: the source is only opened read-only; the only name ever removed, created or opened for
+// writing is dst; nothing is removed without Overwrite.
+//
+//@ func copyFiles(ctx, fs, src, dst, overwrite, depth, recursion) (status, err)
+//@   abstract
+//@   noframe
+//@   requires fs != nil && (hastype(fs, *memFS) ==> fs.(*memFS) != nil)
+//@   requires hastype(fs, Dir) ==> len(fs.(Dir)) > 1 && fs.(Dir)[0] == '/' && (forall i int :: 0 <= i && i < len(fs.(Dir)) && fs.(Dir)[i] == '/' ==> (i+1 >= len(fs.(Dir)) ==> len(fs.(Dir)) == 1) && (i+1 < len(fs.(Dir)) ==> fs.(Dir)[i+1] != '/') && (i+1 < len(fs.(Dir)) && fs.(Dir)[i+1] == '.' ==> i+2 < len(fs.(Dir)) && fs.(Dir)[i+2] != '/') && (i+2 < len(fs.(Dir)) && fs.(Dir)[i+1] == '.' && fs.(Dir)[i+2] == '.' ==> i+3 < len(fs.(Dir)) && fs.(Dir)[i+3] != '/'))
+//@   requires !coversPath(specSlashClean(dst), specSlashClean(src))
+//@   partial pre:copyFiles
+//@   assert at call OpenFile: ($name == src && $flag == os.O_RDONLY) || $name == dst
+//@   assert at call RemoveAll: $name == dst && overwrite
+//@   assert at call Mkdir: $name == dst
+//@   loop 1 invariant -1 <= rangeindex && rangeindex < len(children)
+//@   ensures err == nil ==> status == http.StatusCreated || status == http.StatusNoContent
+
+// moveFiles: the only name removed is dst, only with Overwrite and only before the rename; the
+// source is passed to Rename(src, dst) and to nothing else; if Rename was not reached the result is
+// an error (the source is moved or left alone, never deleted).
+//
+//@ func moveFiles(ctx, fs, src, dst, overwrite) (status, err)
+//@   noframe
+//@   requires fs != nil && (hastype(fs, *memFS) ==> fs.(*memFS) != nil)
+//@   requires hastype(fs, Dir) ==> len(fs.(Dir)) > 1 && fs.(Dir)[0] == '/' && (forall i int :: 0 <= i && i < len(fs.(Dir)) && fs.(Dir)[i] == '/' ==> (i+1 >= len(fs.(Dir)) ==> len(fs.(Dir)) == 1) && (i+1 < len(fs.(Dir)) ==> fs.(Dir)[i+1] != '/') && (i+1 < len(fs.(Dir)) && fs.(Dir)[i+1] == '.' ==> i+2 < len(fs.(Dir)) && fs.(Dir)[i+2] != '/') && (i+2 < len(fs.(Dir)) && fs.(Dir)[i+1] == '.' && fs.(Dir)[i+2] == '.' ==> i+3 < len(fs.(Dir)) && fs.(Dir)[i+3] != '/'))
+//@   requires !coversPath(specSlashClean(dst), specSlashClean(src))
+//@   ghost removed += 1 at call RemoveAll
+//@   ghost renamed += 1 at call Rename
+//@   assert at call RemoveAll: $name == dst && overwrite && ghost(renamed) == 0
+//@   assert at call Rename: $oldName == src && $newName == dst
+//@   ensures ghost(renamed) == 0 ==> err != nil
+//@   ensures !overwrite ==> ghost(removed) == 0
+//@   ensures err == nil ==> status == http.StatusCreated || status == http.StatusNoContent
+
+// handleCopyMove (NOT in the green set: candidate defect F2). The preconditions of copyFiles and
+// moveFiles become obligations at its two call sites (pre.webdav.copyFiles#1.4, pre.webdav.moveFiles#1.4);
+// the handler only excludes dst == "" and dst == src on the raw header value, so they cannot be
+// discharged. Lock confirmation is abstracted (any result); the deferred release() is dropped.
+//
+//@ func (*Handler).confirmLocks(h, r, src, dst) (release, status, err)
+//@   opaque
+//@   allocates
+//@ func (*Handler).handleCopyMove(h, w, r) (status, err)
+//@   abstract
+//@   noframe
+//@   requires h != nil && r != nil && r.URL != nil && h.FileSystem != nil && (hastype(h.FileSystem, *memFS) ==> h.FileSystem.(*memFS) != nil)
+//@   requires hastype(h.FileSystem, Dir) ==> len(h.FileSystem.(Dir)) > 1 && h.FileSystem.(Dir)[0] == '/' && (forall i int :: 0 <= i && i < len(h.FileSystem.(Dir)) && h.FileSystem.(Dir)[i] == '/' ==> (i+1 >= len(h.FileSystem.(Dir)) ==> len(h.FileSystem.(Dir)) == 1) && (i+1 < len(h.FileSystem.(Dir)) ==> h.FileSystem.(Dir)[i+1] != '/') && (i+1 < len(h.FileSystem.(Dir)) && h.FileSystem.(Dir)[i+1] == '.' ==> i+2 < len(h.FileSystem.(Dir)) && h.FileSystem.(Dir)[i+2] != '/') && (i+2 < len(h.FileSystem.(Dir)) && h.FileSystem.(Dir)[i+1] == '.' && h.FileSystem.(Dir)[i+2] == '.' ==> i+3 < len(h.FileSystem.(Dir)) && h.FileSystem.(Dir)[i+3] != '/'))
+
+// ---------------------------------------------------------------------------
+// C44 (partial): memFS refusal clauses.
+//
+// find/walk (a loop that calls a closure which assigns find's result variables) is NOT under contract:
+// find is abstracted soundly as `opaque` (any result), so nothing that depends on what find returns
+// is claimed - in particular not the refusal of the root, which memFS derives from find returning a
+// nil parent. What is proved is the clause decided before the tree is consulted: renaming a
+// directory into its own subtree.
+//
+//@ func (*memFS).find(fs, op, fullname) (parent, frag, err)
+//@   opaque
+//@   allocates
+
+// Rename: the tree is consulted (find is called) only when the normalised new name is not inside the
+// normalised old name, i.e. is not oldName + "/" + more (oldName, newName below are the function's
+// variables after `oldName = slashClean(oldName); newName = slashClean(newName)`); a call that does
+// not consult the tree returns nil (same name) or os.ErrInvalid. So renaming a directory into its
+// own subtree is refused with ErrInvalid before any map access, whatever the spelling of the names.
+//
+//@ func (*memFS).Rename(fs, ctx, oldName, newName) (err)
+//@   requires fs != nil
+//@   noframe
+//@   partial nopanic
+//@   ghost finds += 1 at call find
+//@   assert at call find: !(len(newName) > len(oldName) && newName[len(oldName)] == '/' && (forall i int :: 0 <= i && i < len(oldName) ==> newName[i] == oldName[i]))
+//@   ensures ghost(finds) == 0 ==> err == nil || err == os.ErrInvalid
+
+//@ func (*memFS).RemoveAll(fs, ctx, name) (err)
+//@   requires fs != nil
+//@   noframe
+
+// ---------------------------------------------------------------------------
+// C43 (thin): in-memory lock system, step rules only.
+//
+// canCreate's step function (the closure walkToRoot calls for the name itself, first == true, and
+// then for every ancestor): the decision against RFC 4918's rule. No node registered under the name:
+// no conflict. The resource itself: free only if it carries no token and the request has zero depth
+// (a registered, token-less node means a descendant is locked, which conflicts with an
+// infinite-depth request). An ancestor: conflicts exactly when it carries a token with infinite depth.
+//
+// NOT under contract (engine limits, see the report): the closure's captured variables (m, zeroDepth)
+// are not visible to its `requires`, and a spec-level read of a string-keyed map (m.byName[name0])
+// makes the engine panic ("not a scalar: type string with 3 comps"). The intended contract was
+//
+//	func (*memLS).canCreate$1(name0, first) (ok)
+//	  ensures m.byName[name0] == nil ==> ok
+//	  ensures m.byName[name0] != nil && first ==> (ok <==> m.byName[name0].token == "" && zeroDepth)
+//	  ensures m.byName[name0] != nil && !first ==> (ok <==> !(m.byName[name0].token != "" && !m.byName[name0].details.ZeroDepth))
+
+// nextToken: the generation counter strictly increases by one per token (tokens are its decimal
+// representations, so two tokens of one memLS differ as long as the 64-bit counter does not wrap).
+//
+//@ func (*memLS).nextToken(m) (tok)
+//@   requires m != nil
+//@   ensures m.gen == old(m.gen) + 1 && len(tok) >= 1
+//@   modifies m.gen
+
+// lookup: the node returned is not held by a Confirm call (so a confirmed lock cannot be confirmed
+// again until released), and its root covers the name: equal, or - only for an infinite-depth lock -
+// the root is "/" or the name extends root + "/". (That the node is registered under the token of one
+// of the conditions needs a spec-level read of a string-keyed map, which the engine does not support.)
+//
+//@ func (*memLS).lookup(m, name, conditions) (n)
+//@   requires m != nil
+//@   ensures n != nil ==> !n.held
+//@   ensures n != nil && name != n.details.Root ==> !n.details.ZeroDepth
+//@   ensures n != nil && name != n.details.Root && n.details.Root != "/" ==> len(name) > len(n.details.Root) && name[len(n.details.Root)] == '/'
+//@   ensures forall i int :: n != nil && name != n.details.Root && n.details.Root != "/" && 0 <= i && i < len(n.details.Root) ==> name[i] == n.details.Root[i]
+//@   loop 1 invariant -1 <= rangeindex && rangeindex < len(conditions)
